@@ -241,6 +241,7 @@ func (e *Engine) newRun(fn *ssa.Function, solver *Solver, prefix []uint64, opts 
 		onces:        make(map[*value]*onceState),
 		hostval:      make(map[*value]value),
 		decidedCache: make(map[*Term]int),
+		og:           newOrderFacts(),
 		instrLimit:   opts.InstrLimit,
 		tier:         opts.Tier,
 		seed:         opts.Seed,
